@@ -3,7 +3,7 @@
    returns the indices of the cases where model and implementation differ.
    A third kind of case ties [pyslice] to the Python runtime's own slicing. *)
 From Coq Require Import List Bool ZArith NArith Arith.
-From PC Require Import Base.Outcome Base.Py Base.PySlice Model.Strips Model.Triangulate.
+From PC Require Import Base.Outcome Base.Py Base.PySlice Base.NpProg Gen.Triangulate Model.Strips Model.Triangulate.
 Import ListNotations.
 Local Open Scope nat_scope.
 
@@ -21,30 +21,57 @@ Definition tri_eqb (a b : tri row) : bool :=
   row_eqb a1 b1 && row_eqb a2 b2 && row_eqb a3 b3.
 Definition tris_eqb : list (tri row) -> list (tri row) -> bool := list_eqb tri_eqb.
 
-(* the columns a Triangle/Polygon object exposes: VERTEX, first NORMAL, every TEXCOORD *)
-Definition project (proj : list nat) (r : row) : row := map (fun o => nth o r 0%N) proj.
+(* the columns a Polygon object exposes: (array, offset) with array 0 = indices (VERTEX),
+   1 = normal_indices (first NORMAL), 2 = a texcoord_indices entry (every TEXCOORD, listing order);
+   each array is cut by its own generated subscripts *)
+Definition corners_of_array (t : nat) : corners :=
+  match t with 0 => poly_indices | 1 => poly_normal_indices | _ => poly_texcoord_indices end.
+
+Fixpoint zip_tri_cols (cols : list (list (tri N))) : list (tri row) :=
+  match cols with
+  | [] => []
+  | c :: r =>
+      match r with
+      | [] => map (tri_map (fun x => [x])) c
+      | _ => zipwith (fun t tr => let '(a, b, cc) := t in let '(ra, rb, rc) := tr in (a :: ra, b :: rb, cc :: rc))
+                     c (zip_tri_cols r)
+      end
+  end.
+
+Definition pp_polygon (proj : list (nat * nat)) (poly : list row) : outcome (list (tri row)) :=
+  omap zip_tri_cols
+       (omapM (fun ao => poly_col (corners_of_array (fst ao)) (map (fun r => nth (snd ao) r 0%N) poly)) proj).
+
+Definition bound_ok (model : option (list (tri row))) (obs : option (list (tri row))) : bool :=
+  match obs with
+  | None => true
+  | Some o => match model with Some m => tris_eqb m o | None => false end
+  end.
 
 Inductive case :=
   (* <tristrips>/<trifans>: stride, the <p> streams, exception code of load (0 = none),
-     TriangleSet.index as triangles of rows *)
+     TriangleSet.index as triangles of rows, the index of the scene-bound set when observed *)
   | CExpand (kd : kind) (k : nat) (ps : list (list N)) (code : nat) (obs : list (tri row))
+            (obs_bound : option (list (tri row)))
   (* <polylist> (ps = [p], vc = <vcount>) or <polygons> (vc derived from the <p> lengths):
      load code, the primitive's vcounts, exception code of triangleset(), its index,
-     and (when present) Polygon.triangles() of every polygon projected on the exposed inputs *)
-  | CPoly (polygons : bool) (k : nat) (proj : list nat) (vc : list nat) (ps : list (list N))
+     (when present) Polygon.triangles() of every polygon per exposed array, and the index of
+     BoundPolylist.triangleset() when observed *)
+  | CPoly (polygons : bool) (k : nat) (proj : list (nat * nat)) (vc : list nat) (ps : list (list N))
           (load_code : nat) (obs_vc : list nat) (tri_code : nat) (obs_tris : list (tri row))
-          (have_pp : bool) (obs_pp : list (list (tri row)))
+          (have_pp : bool) (obs_pp : list (list (tri row))) (obs_bound : option (list (tri row)))
   (* list(range(n))[a:b:s] in the Python runtime *)
   | CSlice (n : nat) (a b : option Z) (s : nat) (obs : list nat).
 
 Definition case_ok (c : case) : bool :=
   match c with
-  | CExpand kd k ps code obs =>
-      match load_expand kd k ps with
-      | Ok ts => Nat.eqb code 0 && tris_eqb ts obs
+  | CExpand kd k ps code obs obs_bound =>
+      match load_expand kd (k - 1) ps with
+      | Ok ts => Nat.eqb code 0 && tris_eqb ts obs &&
+                 bound_ok (bound_attr (fun f => match f with FIndex => ts | _ => [] end) FIndex) obs_bound
       | Raise e => Nat.eqb code (exn_code e) && tris_eqb [] obs
       end
-  | CPoly polygons k proj vc ps load_code obs_vc tri_code obs_tris have_pp obs_pp =>
+  | CPoly polygons k proj vc ps load_code obs_vc tri_code obs_tris have_pp obs_pp obs_bound =>
       let vcm := if polygons then polygons_vcounts k ps else vc in
       match reshape k (concat ps) with
       | Raise _ => false
@@ -55,10 +82,15 @@ Definition case_ok (c : case) : bool :=
           | Raise e => Nat.eqb tri_code (exn_code e) && tris_eqb [] obs_tris
           end &&
           (if have_pp
-           then list_eqb tris_eqb
-                  (map (fun poly => map (tri_map (project proj)) (poly_triangles poly)) (polygon_rows vcm rows))
-                  obs_pp
-           else true)
+           then match omapM (pp_polygon proj) (polygon_rows vcm rows) with
+                | Ok pp => list_eqb tris_eqb pp obs_pp
+                | Raise _ => false
+                end
+           else true) &&
+          match bound_triangleset vcm rows with
+          | Ok b => bound_ok b obs_bound
+          | Raise _ => match obs_bound with None => true | Some _ => false end
+          end
       end
   | CSlice n a b s obs => list_eqb Nat.eqb (pyslice a b s (seq 0 n)) obs
   end.
